@@ -38,9 +38,15 @@ impl AuthenticationAdapter for MojangAdapter {
 
         // issue a request to Mojang's authentication endpoint
         let username = user.0;
-        let url = format!(
-            "https://sessionserver.mojang.com/session/minecraft/hasJoined?username={username}&serverId={hash}"
-        );
+        let url = reqwest::Url::parse_with_params(
+            "https://sessionserver.mojang.com/session/minecraft/hasJoined",
+            &[("username", username), ("serverId", hash.as_str())],
+        )
+        .map_err(|err| passage_adapters::Error::FailedFetch {
+            adapter_type: "mojang",
+            cause: Box::new(err),
+        })?;
+        let url = String::from(url);
         #[cfg(passage_verif)]
         let url = crate::verif_session_server(url);
         let profile = HTTP_CLIENT
